@@ -88,7 +88,7 @@ pub fn probes(_tier: &str) -> Vec<String> {
 }
 
 fn digest_of(s: &str) -> String {
-  identity_jose::jwu::encode_b64(sha2::Sha256::digest(s.as_bytes()))
+  crate::core::b64::encode(sha2::Sha256::digest(s.as_bytes()))
 }
 
 fn ts(unix: i64) -> Timestamp {
@@ -308,7 +308,7 @@ pub fn run(_params: &Params) {
         "id": format!("https://cred.example/sd/{round}"),
         "type": ["VerifiableCredential", "SimSdCredential"],
         "issuer": issuer.did,
-        "issuanceDate": ts(now_i - 10).to_rfc3339(),
+        "issuanceDate": crate::core::time::rfc3339(now_i - 10),
         "credentialSubject": {
           "id": holder_did,
           "name": format!("Holder {round}"),
@@ -318,14 +318,14 @@ pub fn run(_params: &Params) {
         }
       });
       if let Some(e) = expiry {
-        c["expirationDate"] = ts(e).to_rfc3339().into();
+        c["expirationDate"] = crate::core::time::rfc3339(e).into();
       }
       let Ok(cred) = Credential::<Object>::from_json_value(c) else { continue };
       let truth = serde_json::to_value(&cred).unwrap();
       let Ok(payload) = cred.serialize_jwt(None) else { continue };
       let Ok(mut enc) = SdObjectEncoder::new(&payload) else { continue };
       let mut concealed: Vec<Concealed> = Vec::new();
-      let salt = || Some(identity_jose::jwu::encode_b64(ctx::bytes(16)));
+      let salt = || Some(crate::core::b64::encode(ctx::bytes(16)));
       // leaf claims
       for leaf in ["name", "level"] {
         if ctx::choose(2) == 0 {
@@ -467,8 +467,8 @@ pub fn run(_params: &Params) {
           moves.push("reorder_disclosures");
         }
         3 => {
-          let forged = identity_jose::jwu::encode_b64(
-            format!("[\"{}\", \"level\", 99]", identity_jose::jwu::encode_b64(ctx::bytes(8))).as_bytes(),
+          let forged = crate::core::b64::encode(
+            format!("[\"{}\", \"level\", 99]", crate::core::b64::encode(ctx::bytes(8))).as_bytes(),
           );
           disclosures.push(forged);
           ctx::stat("fault.adversary.forge_disclosure");
@@ -616,7 +616,7 @@ pub fn run(_params: &Params) {
               ctx::stat("false.cred.nonce");
             }
             let sig_ok = nonce_ok
-              && DIDUrl::parse(kid).is_ok()
+              && super::is_did_url(kid)
               && did_of_url(kid) == issuer.did
               && p.header.get("alg").and_then(|a| a.as_str()) == Some("EdDSA")
               && x.as_deref().map(|x| sig_truth(&all, signing_input.as_bytes(), &p.sig, x)).unwrap_or(false);
@@ -630,8 +630,8 @@ pub fn run(_params: &Params) {
                 false_cond = Some("disclosure_unbound");
                 ctx::stat("false.cred.disclosure_unbound");
               } else {
-                let exp = it.truth.get("expirationDate").and_then(|v| v.as_str()).and_then(|s| Timestamp::parse(s).ok()).map(|t| t.to_unix());
-                let iss_d = it.truth.get("issuanceDate").and_then(|v| v.as_str()).and_then(|s| Timestamp::parse(s).ok()).map(|t| t.to_unix()).unwrap_or(0);
+                let exp = it.truth.get("expirationDate").and_then(|v| v.as_str()).and_then(crate::core::time::parse_rfc3339_z);
+                let iss_d = it.truth.get("issuanceDate").and_then(|v| v.as_str()).and_then(crate::core::time::parse_rfc3339_z).unwrap_or(0);
                 if iss_d > v_now {
                   false_cond = Some("issuance_date");
                 } else if exp.map(|e| e < v_now).unwrap_or(false) {
@@ -808,7 +808,7 @@ pub fn run(_params: &Params) {
                 ctx::stat("false.kb.typ");
               } else {
                 let kid = opt_method_id.as_deref().unwrap_or_else(|| p.header.get("kid").and_then(|k| k.as_str()).unwrap_or(""));
-                let method = if DIDUrl::parse(kid).is_ok() { doc_method(&holder_json, kid, scope) } else { None };
+                let method = if super::is_did_url(kid) { doc_method(&holder_json, kid, scope) } else { None };
                 match method {
                   None => {
                     want = Some("JwtValidationError");
@@ -923,7 +923,7 @@ pub fn run(_params: &Params) {
       "@context": "https://www.w3.org/2018/credentials/v1",
       "type": ["VerifiableCredential"],
       "issuer": issuer.did,
-      "issuanceDate": ts(now_a - 10).to_rfc3339(),
+      "issuanceDate": crate::core::time::rfc3339(now_a - 10),
       "credentialSubject": {"id": holders[0].did, "level": 99}
     });
     if let Ok(cred) = Credential::<Object>::from_json_value(c) {
@@ -932,12 +932,12 @@ pub fn run(_params: &Params) {
           let mut disclosures: Vec<String> = Vec::new();
           let conceal_iss = ctx::choose(2) == 0;
           if conceal_iss {
-            if let Ok(d) = enc.conceal("/iss", Some(identity_jose::jwu::encode_b64(ctx::bytes(16)))) {
+            if let Ok(d) = enc.conceal("/iss", Some(crate::core::b64::encode(ctx::bytes(16)))) {
               disclosures.push(d.to_string());
             }
           }
           if ctx::choose(2) == 0 {
-            if let Ok(d) = enc.conceal("/vc/credentialSubject/level", Some(identity_jose::jwu::encode_b64(ctx::bytes(16)))) {
+            if let Ok(d) = enc.conceal("/vc/credentialSubject/level", Some(crate::core::b64::encode(ctx::bytes(16)))) {
               disclosures.push(d.to_string());
             }
           }
